@@ -261,6 +261,20 @@ func flagsConsistent(d *tensor.Dense) (s string) {
 		if a[:strings.LastIndex(a, "|K:")] != b[:strings.LastIndex(b, "|K:")] {
 			return "differs"
 		}
+		// a matrix handed to gonum: ToMat64 decides from the flags whether the raw data is in order
+		if d.Dims() == 2 {
+			if m, err := tensor.ToMat64(d); err == nil {
+				r, c := m.Dims()
+				for i := 0; i < r; i++ {
+					for j := 0; j < c; j++ {
+						v, _ := d.At(i, j)
+						if valTok(m.At(i, j)) != valTok(v) {
+							return "differs"
+						}
+					}
+				}
+			}
+		}
 	}
 	return "same"
 }
